@@ -3,6 +3,7 @@ package vc
 import (
 	"fmt"
 	"os"
+	"os/exec"
 	"path/filepath"
 	"sort"
 	"strings"
@@ -43,7 +44,7 @@ func writeReplay(E *Engine, dir, prop string, r *Result) (string, string) {
 			}
 		}
 	}
-	b.WriteString("\nsolver output:\n" + truncate(r.Output, 4000) + "\n")
+	b.WriteString("\nsolver output (first answer):\n" + truncate(r.Output, 1500) + "\n")
 	os.WriteFile(base+".txt", []byte(b.String()), 0o644)
 	os.WriteFile(base+".smt2", []byte(r.O.Query(Prelude)), 0o644)
 	return base + ".txt", note
@@ -61,5 +62,24 @@ var tryReplay = func(E *Engine, r *Result, base string) *replayResult { return n
 
 // replayRun re-executes the replay test recorded in a replay file, if any.
 func replayRun(path string) int {
+	data, err := os.ReadFile(path)
+	if err != nil {
+		return 2
+	}
+	for _, l := range strings.Split(string(data), "\n") {
+		if strings.HasPrefix(l, "run: ") {
+			cmd := exec.Command("bash", "-c", strings.TrimPrefix(l, "run: "))
+			out, _ := cmd.CombinedOutput()
+			fmt.Println("---- re-running the replay test on the current tree ----")
+			fmt.Print(string(out))
+			if strings.Contains(string(out), "REPLAY-PANIC") || strings.Contains(string(out), "REPLAY-CLAUSE-FALSE") || strings.Contains(string(out), "fatal error") {
+				fmt.Println("REPLAY: failure reproduced")
+				return 1
+			}
+			fmt.Println("REPLAY: no failure on the current tree")
+			return 0
+		}
+	}
+	fmt.Println("REPLAY: this replay file carries no executable test (no failing input was found); see the obligation and solver output above")
 	return 0
 }
